@@ -234,6 +234,7 @@ class timemodel(_coreiterative):
         self._remove_monitor_output(monitors)
         self._remove_monitor_output(self.monitors)
         self.__dict__.pop("_lastresidual", None) # multistep memory is not kept between independent solve
+        self.__dict__.pop("jacobian_use", None) # neither is the cached jacobian
         return self._solve(f, condition, tsave, stop, flush, monitors, directives)
 
     def restart(self, f, condition, tsave=[], 
